@@ -27,6 +27,19 @@ def decfra_cases(c, thorough):
                 pre = b"AB\r\n" if i % 2 else b""
                 seq = pre + f"\x1b[{cp};1;1;2;3$x".encode() + b"\x1b[2;2HZ\x1b[1;1;2;2$z\x1b[1;1;2;3${"
                 cases.append({"id": f"decfra-{emu}-{cp}-{alloc}", "emu": emu, "music": 0, "w": 3, "h": 2, "alloc": alloc, "bs": 0, "proj": "full", "bytes": list(seq)})
+    # the same fill after the state another control function leaves behind: a font whose header declares more glyphs than there
+    # are scalar values below the surrogates (CTerm font DCS with a PSF2 payload), loaded into the caret's font page
+    import base64, struct
+    def psf2(n):
+        return struct.pack("<4sIIIIIII", bytes([0x72, 0xB5, 0x4A, 0x86]), 0, 32, 0, n, 1, 1, 8) + bytes(n)
+    for n in (0xD900, 0x11000):
+        b64 = base64.b64encode(psf2(n))
+        for emu in ("ansi", "avatar", "pcboard", "ctrla", "renegade"):
+            for slot in (0, 1, 42):
+                pre = b"\x1bPCTerm:Font:%d:" % slot + b64 + b"\x1b\\" + (b"\x1b[0;%d D" % slot if slot else b"")
+                for cp in (0xD7FF, 0xD800, 0xD8FF, 0xDBFF, 0xDC00, 0xDFFF, 0xE000, n - 1, n, 0x10FFFF, 0x110000):
+                    seq = pre + f"\x1b[{cp};1;1;2;3$x".encode() + b"\x1b[2;2HZ\x1b[1;1;2;2$z"
+                    cases.append({"id": f"decfra-font{n:x}@{slot}-{emu}-{cp}", "emu": emu, "music": 0, "w": 3, "h": 2, "alloc": 0, "bs": 0, "proj": "full", "model": 0, "quiet": len(pre) - (8 if slot else 2), "bytes": list(seq)})
     p = os.path.join(c.workdir, "cases-decfra.ndjson")
     with open(p, "w") as f:
         for cs in cases:
